@@ -175,6 +175,18 @@ func buildScenario(seed uint64, n int) (*scen, error) {
 					return muxdrv.TxAllow(n, fee(), ben, false, uint64(100+i))
 				}))
 			}
+			// Fund the keys that otherwise own nothing (node keys sign node registrations), so that
+			// they pass authentication also in the histories with a minimum transacting balance.
+			poor := []*muxdrv.Key{s.fresh.Entity, s.fresh.Node, s.fresh2.Entity, s.fresh2.Node}
+			for _, vv := range v {
+				poor = append(poor, vv.Node)
+			}
+			for _, k := range poor {
+				to := k.Address()
+				txs = append(txs, sign(acc[8].Key, func(n uint64) *transaction.Transaction {
+					return muxdrv.TxTransfer(n, fee(), to, 5000)
+				}))
+			}
 			txs = append(txs, sign(acc[7].Key, func(n uint64) *transaction.Transaction {
 				s.vaultAddr = vault.NewVaultAddress(acc[7].Address, n+1)
 				au := vault.Authority{Addresses: []staking.Address{acc[7].Address}, Threshold: 1}
